@@ -209,6 +209,11 @@ def confirm(prop, path):
     return 'fault'
 
 
+def _addenda(mod):
+    from mc import addenda
+    return addenda.text(mod.ID)
+
+
 def run_replay(mod, path, quiet=False, shard_only=False):
     import_pane()
     with open(path) as f:
@@ -318,7 +323,7 @@ def main(modname, argv):
         'traces_validated_against_impl': total['validated'],
         'evaluations': total['evals'],
         'distinct_nontrivial': len(total['nontrivial']),
-        'rule': meta['rule'],
+        'rule': (meta['rule'] + ' Also: ' + _addenda(mod)).strip(),
         'samples': total['samples'][:8] or ['(no sample recorded)'],
         'exhaustive': not total['capped'] and not total['errors'],
         'distinct_outcomes': len(total['outcomes']),
